@@ -56,6 +56,19 @@ impl<K: NumericId> NotificationList<K> {
         self.inner.notified.lock().unwrap().push(item);
     }
 
+    /// Create an independent copy of this list with the same set of pending notifications.
+    ///
+    /// Unlike `clone`, which returns another handle to the same underlying state, the result
+    /// shares nothing with `self`: notifying or resetting one does not affect the other.
+    pub fn deep_clone(&self) -> Self {
+        let res = Self::default();
+        let notified = self.inner.notified.lock().unwrap().clone();
+        for item in notified {
+            res.notify(item);
+        }
+        res
+    }
+
     /// Clears all notification state and returns a list of notified items since the last `reset`.
     ///
     /// NB: this method will have unpredictable behavior when it comes to concurrent calls to
